@@ -22,6 +22,9 @@ def run(ctx):
     read_fallbacks(ctx)
     el_classes = {c.name: c for c in T.direct_subclasses(sm, T.M_XMLELEMENT, 'XMLElement')}
     c04.routing(ctx, el_classes)
+    from . import c18
+    ctx.res.rule('R-DOM.guard', "the shortcut's name space (possible_children_names) does not depend on xsd_check")
+    c18.container_independent_of_flag(ctx)
 
 
 def layering(ctx):
